@@ -62,6 +62,33 @@ fn kinds(t: &J, out: &mut Vec<String>) {
 /// Narrow signatures: the defect classes of the iteration machinery, otherwise the construct set of the expression.
 fn signature(rec: &J) -> Vec<String> {
   let mut sigs = vec![];
+  // a syntax error on an expression in which the lower bound of a `between` contains `and` / `between` (in parentheses):
+  // the parser defect recorded for C06, met here because the expression cannot be evaluated at all
+  fn has_and(t: &J) -> bool {
+    if let Some(n) = t.get("n").and_then(|n| n.as_str()) {
+      if n == "and" || n == "between" {
+        return true;
+      }
+    }
+    match t {
+      J::Object(m) => m.values().any(has_and),
+      J::Array(a) => a.iter().any(has_and),
+      _ => false,
+    }
+  }
+  fn between_lo_with_and(t: &J) -> bool {
+    if t.get("n").and_then(|n| n.as_str()) == Some("between") && has_and(&t["lo"]) {
+      return true;
+    }
+    match t {
+      J::Object(m) => m.values().any(between_lo_with_and),
+      J::Array(a) => a.iter().any(between_lo_with_and),
+      _ => false,
+    }
+  }
+  if rec["obs"]["k"] == "error" && rec["obs"]["what"].as_str().map_or(false, |w| w.starts_with("parse")) && between_lo_with_and(&rec["tree"]) {
+    return vec!["syntax-error:between-lower-bound-containing-and-in-parentheses".to_string()];
+  }
   fn iter_nodes<'a>(t: &'a J, out: &mut Vec<&'a J>) {
     if let Some(n) = t.get("n").and_then(|n| n.as_str()) {
       if ["for", "some", "every"].contains(&n) {
@@ -116,6 +143,28 @@ pub fn check(mut ctx: Ctx, replay: Option<J>) -> ! {
     }
     ctx.cov("expressions", json!(exprs.len()));
     ctx.cov("scopes", json!(scopes.len()));
+    // deeper nests: random walks through the same templates (TLC's simulation mode, Gen_C01Walk), seeded; every
+    // expression of a walk (2 to 6 constructs deep) is evaluated in two of the scopes
+    let walks = if quick { 400 } else { 6000 };
+    let seed = (ctx.seed % 1_000_000).to_string();
+    let num = format!("num={}", walks);
+    let walk = tlc.run(Run::new("Gen_C01Walk", "Gen_C01Walk.cfg").extra(&["-simulate", &num, "-depth", "6", "-seed", &seed]).workers(1).timeout(1800).tag("_walk"));
+    let wexprs = walk.tagged("WALK");
+    if wexprs.len() < walks {
+      tool_error(&format!("the random walks produced too few expressions ({}): {}", wexprs.len(), walk.error_text));
+    }
+    let mut seen = std::collections::HashSet::new();
+    let mut n_walk = 0u64;
+    for (k, e) in wexprs.iter().enumerate() {
+      if !seen.insert(e["full"].to_string()) {
+        continue;
+      }
+      n_walk += 1;
+      for j in 0..2 {
+        recs.push(run_case(&e["tree"], &e["full"], &scopes[(k + 3 * j) % scopes.len()]));
+      }
+    }
+    ctx.cov("random_walk_expressions", json!(n_walk));
     // anti-vacuity: a wrong value must be rejected
     let mut bad = run_case(&json!({"n": "add", "a": {"n": "num", "ip": "1", "fp": "", "m": 1, "e": 0}, "b": {"n": "num", "ip": "2", "fp": "", "m": 2, "e": 0}}), &json!(["1", "+", "2"]), &scopes[0]);
     bad["obs"]["m"] = json!(4);
